@@ -8,6 +8,7 @@ Ops (see `harness/go/cmd/c06`):
   arrive-begin id=<k> prio=<p|none>    → at-gate | blocked     (held at `queue.after-slot-check`)
   arrive-end id=<k>                    → queued                (k = oldest at the gate)
   tick                                 → to=<ids|-> log=<events|->
+  lock s=<struct> f=<field> fn=<fn>    → <mutexes held at every access>  (source-level fact)
   hold-remove                          → ok                    (gate `queue.before-remove` closed)
   flush-remove                         → ok n=<k>
   drain                                → drained to=<ids|-> | panic negative-waitgroup
@@ -34,6 +35,38 @@ def parseCfg (ws : List String) : Option (Cfg × Nat × Bool) := do
   if mode != "mock" && mode != "real" then none
   if ttl == 0 || win == 0 then none
   pure (⟨size, ttl * 1000, qmax, win * 1000⟩, t0, mode == "real")
+
+/-- The critical sections the model's atomic steps stand for: (struct, field, method) ↦ the mutexes
+that must be held at every access (`x` exclusive, `r` shared, `-` none: `Request.Wait` reads the
+result without the lock — that is how the code is, and what the model's `wake` step mirrors). -/
+def lockTable : List (String × String × String × String) := [
+  ("Request", "state", "StartProcessing", "inProcessMutex:x"),
+  ("Request", "state", "StopProcessing", "inProcessMutex:x"),
+  ("Request", "state", "SetProcessedSuccess", "inProcessMutex:x"),
+  ("Request", "state", "SetProcessedTimeout", "inProcessMutex:x"),
+  ("Request", "result", "SetProcessedSuccess", "inProcessMutex:x"),
+  ("Request", "result", "SetProcessedTimeout", "inProcessMutex:x"),
+  ("Request", "result", "Wait", "-"),
+  ("RequestWatcher", "requests", "AddRequest", "requestsMapMutex:x"),
+  ("RequestWatcher", "requests", "RemoveFromWatchList", "requestsMapMutex:x"),
+  ("RequestWatcher", "requests", "GetRequest", "requestsMapMutex:r"),
+  ("RequestWatcher", "requests", "StopAll", "requestsMapMutex:r"),
+  ("RequestWatcher", "requestsExpireAt", "AddRequest", "expireMapMutex:x"),
+  ("RequestWatcher", "requestsExpireAt", "RemoveFromWatchList", "expireMapMutex:x"),
+  ("RequestWatcher", "requestsExpireAt", "notifyExpiredRequests", "expireMapMutex:r"),
+  ("RequestWatcher", "requestsExpireAt", "recalculateNextExpireAt", "expireMapMutex:r"),
+  ("memoryQueue", "queue", "Enqueue", "mutex:x"),
+  ("memoryQueue", "queue", "DequeueIfValueRelevant", "mutex:x"),
+  ("memoryQueue", "queue", "Remove", "mutex:x"),
+  ("memoryQueue", "queue", "Size", "mutex:r")]
+
+def lockAnswer (ws : List String) : String :=
+  match kv ws "s", kv ws "f", kv ws "fn" with
+  | some s, some f, some fn =>
+    match lockTable.find? (fun t => t.1 == s && t.2.1 == f && t.2.2.1 == fn) with
+    | some t => t.2.2.2
+    | none => "bad-op"
+  | _, _, _ => "bad-op"
 
 structure RunSt where
   cfg : Cfg := ⟨0, 1000, 0, 1000⟩
@@ -68,6 +101,7 @@ def hasPanic (evs : List Ev) : Bool := evs.any fun | .panic => true | _ => false
 def runStep (st : RunSt) (line : String) : RunSt × String :=
   match words line with
   | ["case", id] => ({}, s!"case {id}")
+  | "lock" :: ws => (st, lockAnswer ws)
   | "cfg" :: ws =>
     if st.ready then (st, "bad-op") else
     match parseCfg ws with
